@@ -4,7 +4,7 @@ import re
 
 from ..core import AnalysisError, norm
 from ..sim import check_reach
-from .common import (effects, paths_of, check_writers, arg_by_name, named_call_sites, paths_for_input)
+from .common import (effects, paths_of, check_writers, arg_by_name, named_call_sites, paths_for_input, dtext)
 
 CTRL = 'frontends.tui.controller.Controller'
 PROTECTED = {'display_matcher', 'stop_matcher', 'current_connection', 'all_messages', 'message_list', 'db', 'open_connections',
@@ -124,7 +124,7 @@ def run(ctx):
         it = [e for e in p.events if e.kind in ('loop-iter', 'loop-exit')]
         src = None
         for e in p.events:
-            if e.kind == 'call' and isinstance(e.node.func, ast.Name) and e.node.func.id in ('reversed',) and e.args:
+            if e.kind == 'call' and isinstance(e.node, ast.Call) and isinstance(e.node.func, ast.Name) and e.node.func.id in ('reversed',) and e.args:
                 src = norm(e.args[0])
                 break
         if not sel:
@@ -237,14 +237,18 @@ def run(ctx):
                 ctx.check(bool(re.match(r'^<elem\d+ of self\._get_matching\(connection, matcher, cap\)\[0\]>$', e.argtext(0) or '')), 'C11.3', 'show_messages:prints-list-in-order',
                           f_showm.loc(e.node), 'the listing prints the returned list front to back', 'prints %s' % e.argtext(0))
             if e.kind == 'call' and e.ftext == 'self.out.show' and ' matched, ' in e.text:
-                t = e.text
-                i1 = t.find('self._get_matching(connection, matcher, cap)[1])')
-                i2 = t.find("' matched, '")
-                i3 = t.find('str(self._get_matching(connection, matcher, cap)[2])')
-                i4 = t.find('" didn\'t"')
-                i5 = t.find('str(self._get_matching(connection, matcher, cap)[3])')
-                i6 = t.find("' not checked'")
-                good = 0 <= i1 < i2 < i3 < i4 and ((i6 < 0 and i5 < 0) or i4 < i5 < i6)
+                from ..sim import concat_parts, deep_ast
+                t = dtext(e.args[0]) if e.args else e.text
+                seq = []            # [(index of the count a piece prints, the constant text that follows it)]
+                for part in (concat_parts(deep_ast(e.args[0])) if e.args else []):
+                    if isinstance(part, ast.Constant):
+                        if seq:
+                            seq[-1][1] += str(part.value)
+                    else:
+                        ks = re.findall(r'self\._get_matching\(connection, matcher, cap\)\[(\d)\]', norm(part))
+                        seq.append([ks[0] if len(ks) == 1 else '?', ''])
+                labels = {'1': ' matched', '2': " didn't", '3': ' not checked'}
+                good = [k for k, _ in seq] in (['1', '2'], ['1', '2', '3']) and all(lab.startswith(labels[k]) for k, lab in seq)
                 ctx.check(good, 'C11.5', 'summary:counts-labelled-right', f_showm.loc(e.node),
                           'the summary line labels the matched / didn\'t / not checked counts with their own values',
                           'summary line is %s' % t[:200])
